@@ -292,6 +292,12 @@ SPECS = {
           ('n_votes', 'n_votes', 'Rat')],
          'Bool', None),
     ]),
+    'OpenList': ('votelib/evaluate/openlist.py', [
+        # the jump condition of `jumping = [cand for cand, n_votes in sorted_votes(votes) if <cond>]`
+        ('ThresholdOpenList.evaluate#cond', 'openlist_jumps',
+         [('threshold', 'threshold', 'Rat'), ('self.accept_equal', 'accept_equal', 'Bool'), ('n_votes', 'n_votes', 'Rat')],
+         'Bool', None),
+    ]),
     'PairwinScorer': ('votelib/component/pairwin_scorer.py', [
         # value of one pair in the dict comprehension, as a function of its own count and the reverse pair's count
         ('winning_votes#dictval', 'winning_votes_value',
@@ -331,7 +337,8 @@ def translate_module(modname):
             env[p] = (ln, t)
         tr = Tr(env, funcs)
         if cond_only:
-            comps = [n for st in node.body if isinstance(st, ast.Return) for n in ast.walk(st) if isinstance(n, ast.ListComp)]
+            comps = [n for n in ast.walk(node) if isinstance(n, ast.ListComp) and len(n.generators) == 1
+                     and len(n.generators[0].ifs) == 1]
             if len(comps) != 1 or len(comps[0].generators) != 1 or len(comps[0].generators[0].ifs) != 1:
                 raise TranslateError(f'{path}: expected one list comprehension with one condition')
             e, t = tr.expr(comps[0].generators[0].ifs[0])
